@@ -70,7 +70,9 @@ func (u *controlUnit) cycle(cycle int) {
 	if u.msi.staleState {
 		u.msiStatesCopy = u.msi.copyState()
 		u.msi.staleState = false
-		// Return to simulate that it takes a cycle to sync the MSI state
+		// Return to simulate that it takes a cycle to sync the MSI state.
+		// Nothing is pushed during this cycle.
+		u.pushedRunnersInPreviousCycle = nil
 		return
 	}
 
